@@ -81,6 +81,20 @@ class App:
             w(first)
             late()
             return [LATE_PAYLOAD]
+        if kind == "raise-after-write":
+            # the head and some body are on the wire when the application fails, with whatever exception
+            import errno as _errno
+            w = start_response("200 OK", [("X-First", "1")])
+            w(b"part")
+            exc = {"FileNotFoundError": FileNotFoundError(_errno.ENOENT, "No such file"), "OSError-EIO": OSError(_errno.EIO, "I/O error"),
+                   "PermissionError": PermissionError(_errno.EACCES, "denied"), "ValueError": ValueError("x"), "TimeoutError": TimeoutError("t"),
+                   "BrokenPipeError": BrokenPipeError(_errno.EPIPE, "pipe"), "KeyError": KeyError("k")}[p["exc"]]
+            if p.get("via") == "iter":
+                def gen():
+                    yield b"more"
+                    raise exc
+                return gen()
+            raise exc
         raise AssertionError(kind)
 
 
@@ -163,6 +177,9 @@ def cases():
             yield "hop-with-upgrade", {"kind": "single", "status": "200 OK", "headers": [("Connection", "upgrade"), (h.title(), val), ("X-Z", "z")]}
             yield "hop-with-upgrade", {"kind": "single", "status": "200 OK", "headers": [(h.title(), val), ("Connection", "upgrade"), ("X-Z", "z")]}
             yield "hop-with-upgrade", {"kind": "single", "status": "101 Switching Protocols", "headers": [("Connection", "Upgrade"), ("Upgrade", "websocket"), (h.title(), val), ("X-Z", "z")]}
+    for e in ("FileNotFoundError", "OSError-EIO", "PermissionError", "ValueError", "TimeoutError", "BrokenPipeError", "KeyError"):
+        for via in ("call", "iter"):
+            yield "raise-after-write", {"kind": "raise-after-write", "exc": e, "via": via}
     # refused start_response calls that the application swallows: nothing of the refused call may reach the wire
     for bad_status in ("299 EVIL\r\nX-Evil: 1", "200 OK\n", "200 O\x00K"):
         yield "swallow", {"kind": "swallow", "status": bad_status, "headers": [("X-Z", "z")]}
@@ -186,6 +203,14 @@ def judge(label, prog, o, ver):
         for line in head.split(b"\r\n"):
             if b"\n" in line or b"\r" in line:
                 return "refused-call-reached-the-wire", "bare CR/LF inside a head line: %r" % line
+        return None
+    if prog["kind"] == "raise-after-write":
+        nstatus = len(re.findall(rb"HTTP/1\.[01] \d{3}", wire))
+        if nstatus > 1:
+            return "second-head-after-application-error", "the application raised %s after the head and 4 body bytes were sent: the wire carries %d status lines: %r" % (
+                prog["exc"], nstatus, wire[:300])
+        if first is not None and first.complete and not first.problems and first.framing != "close":
+            return "failed-response-looks-complete", "the application raised %s mid-response, yet the response reads as complete (%s framing): %r" % (prog["exc"], first.framing, wire[:200])
         return None
     if prog["kind"].startswith("late-"):
         want = (b"" if "empty" in prog["kind"] else b"part") + LATE_PAYLOAD
